@@ -14,6 +14,7 @@ import OcVerif.Driver.Stack
 import OcVerif.Driver.Trap
 import OcVerif.Driver.Sched
 import OcVerif.Driver.Pool
+import OcVerif.Driver.Join
 /-!
 `ocmodel`: reads history lines `<comp> <id> : <body> => <implementation outputs>` on stdin,
 runs the Lean model on `<body>`, compares with the implementation's outputs and evaluates the
@@ -41,6 +42,7 @@ def dispatch (comp : String) : Option (String → String → Verdict) :=
   | "trap" => some Driver.Trap.drive
   | "sched" => some Driver.Sched.drive
   | "pool" => some Driver.Pool.drive
+  | "join" => some Driver.Join.drive
   | _ => none
 
 def handle (line : String) : String :=
